@@ -933,6 +933,13 @@ fn gen_query(r: &mut Rng) -> (String, bool, bool, Vec<String>) {
                 1 => format!("{}.{}", x, g.nprop()),
                 _ => format!("{}.{} * 2", x, g.nprop()),
             };
+            if e.contains(' ') && g.joins {
+                // the engine's projection computes NULL + 1 as NULL on the first row and as 0 on later rows
+                // of a join's output (the same under every switch combination; reported to C11): the rows
+                // of such a query are not compared with the semantics
+                sem_ok = false;
+                g.tags.push("computed-arith-above-join".into());
+            }
             items.push(format!("{} AS {}", e, k));
             new_ints.push(k);
             g.tags.push("with-computed".into());
